@@ -469,3 +469,94 @@ Lemma namespace_insights : forall nss e,
 Proof.
   intros nss e. exact (conj (revise_one_deleted nss e) (conj (revise_one_matched nss e) (revise_one_others nss e))).
 Qed.
+
+(* ---------- exactness from hypotheses on the INPUTS only (no reference to the ensemble's state) ---------- *)
+
+(* every watcher key was a served pair of some insight of the history *)
+Lemma watcher_origin : forall hs k, In k (watchers (run_adjust hs)) -> exists j, In j hs /\ In k (served j).
+Proof.
+  induction hs as [| i hs IH] using rev_ind; intros k Hk.
+  - cbn in Hk. contradiction.
+  - unfold run_adjust in Hk. rewrite fold_left_app in Hk. cbn in Hk.
+    apply adjust_watchers_iff in Hk. destruct Hk as [Hk | [Hk _]].
+    + exists i. split; [apply in_or_app; right; left; reflexivity | exact Hk].
+    + destruct (IH k Hk) as [j [Hj Hs]]. exists j. split; [apply in_or_app; left; exact Hj | exact Hs].
+Qed.
+
+(* H1: some namespace is served now;
+   H2: cluster-wide serving (None among the namespaces), once on, is still on
+       (kopf: `clusterwide` is fixed for the life of the process);
+   H3: a peering resource that was ever watched is still watched
+       (kopf: nobody puts handlers on the peering CRD and later takes the CRD's kinds away one by one). *)
+Lemma history_exact_inputs : forall hs i,
+  namespaces i <> [] ->
+  (forall j, In j hs -> In None (namespaces j) -> In None (namespaces i)) ->
+  (forall j r, In j hs -> In r (peering i) -> In r (watched j) -> In r (watched i)) ->
+  forall k, In k (watchers (run_adjust (hs ++ [i]))) <-> In k (served i).
+Proof.
+  intros hs i H1 H2 H3. apply history_exact.
+  - left; exact H1.
+  - destruct (mem_ns None (namespaces i)) eqn:E; [left; apply mem_ns_In; exact E |].
+    right. intros k Hk Hr Hn. destruct (watcher_origin hs k Hk) as [j [Hj Hs]].
+    unfold served in Hs. apply wanted_In in Hs. destruct Hs as [r [n [Hrw [Hnn ->]]]].
+    unfold mkkey in Hr, Hn; cbn in Hr, Hn. rewrite Hr in Hn. subst n.
+    assert (In None (namespaces i)) by (apply (H2 j Hj Hnn)).
+    apply mem_ns_In in H. congruence.
+  - intros r Hp. destruct (mem_res r (watched i)) eqn:E; [left; apply mem_res_In; exact E |].
+    right. intros k Hk Hf. destruct (watcher_origin hs k Hk) as [j [Hj Hs]].
+    unfold served in Hs. apply wanted_In in Hs. destruct Hs as [r' [n [Hrw [Hnn ->]]]].
+    unfold mkkey in Hf; cbn in Hf. subst r'.
+    assert (In r (watched i)) by (apply (H3 j r Hj Hp Hrw)).
+    apply mem_res_In in H. congruence.
+Qed.
+
+Lemma history_inputs_example :
+  let i1 := {| watched := [r_cluster; r_spaced]; namespaces := [Some "ns1"; Some "ns2"]%string; peering := [r_peer] |} in
+  let i2 := {| watched := [r_cluster]; namespaces := [Some "ns2"; Some "ns3"]%string; peering := [r_peer] |} in
+  namespaces i2 <> [] /\
+  (forall j, In j [i1] -> In None (namespaces j) -> In None (namespaces i2)) /\
+  (forall j r, In j [i1] -> In r (peering i2) -> In r (watched j) -> In r (watched i2)) /\
+  watchers (run_adjust [i1; i2]) = [(r_cluster, None)] /\ served i2 = [(r_cluster, None); (r_cluster, None)].
+Proof.
+  cbv zeta. split; [discriminate |]. split.
+  - intros j [<- | []] [H | [H | []]]; discriminate.
+  - split.
+    + intros j r [<- | []] [<- | []] [H | [H | []]]; discriminate.
+    + vm_compute. split; reflexivity.
+Qed.
+
+(* ---------- observation._update_resources ---------- *)
+
+Lemma gres_eqb_eq : forall a b, gres_eqb a b = true <-> a = b.
+Proof.
+  intros [ga ra] [gb rb]; unfold gres_eqb; cbn. rewrite andb_true_iff, String.eqb_eq, res_eqb_eq.
+  split; [intros [-> ->]; reflexivity | intros H; injection H as -> ->; split; reflexivity].
+Qed.
+
+Lemma mem_gres_In : forall x l, mem_gres x l = true <-> In x l.
+Proof.
+  intros x l; unfold mem_gres; rewrite existsb_exists. split.
+  - intros [y [Hy He]]. apply gres_eqb_eq in He. subst; assumption.
+  - intros H; exists x; split; [assumption | apply gres_eqb_eq; reflexivity].
+Qed.
+
+(* after a (re)scan of group g: a kind is in the dimension iff the selectors select it from the fresh scan,
+   or it belongs to another group and was there before — nothing else changes *)
+Lemma update_resources_spec : forall g rs selected x,
+  In x (update_resources g rs selected) <-> In x selected \/ (In x rs /\ in_group g x = false).
+Proof.
+  intros g rs selected x. unfold update_resources.
+  assert (G : forall sel acc, In x (fold_left (fun acc x => if mem_gres x acc then acc else x :: acc) sel acc) <-> In x acc \/ In x sel).
+  { induction sel as [| y sel IH]; intros acc; cbn; [tauto |]. rewrite IH.
+    destruct (mem_gres y acc) eqn:E.
+    - apply mem_gres_In in E. split; intros H; intuition (subst; auto).
+    - cbn. split; intros H; intuition (subst; auto). }
+  rewrite G, filter_In, negb_true_iff. tauto.
+Qed.
+
+(* a kind of the rescanned group that is no longer selected (its CRD is gone, or no longer matches) leaves *)
+Lemma update_resources_gone : forall g rs selected x,
+  in_group g x = true -> ~ In x selected -> ~ In x (update_resources g rs selected).
+Proof.
+  intros g rs selected x Hg Hn H. apply update_resources_spec in H. destruct H as [H | [_ H]]; [contradiction | congruence].
+Qed.
